@@ -3,8 +3,10 @@ package gen
 import (
 	"errors"
 	"fmt"
+	"io"
 	"math"
 	"strconv"
+	"sync"
 	"time"
 
 	"github.com/hedzr/logg/slog"
@@ -36,6 +38,44 @@ type KV struct {
 type Stringer struct{ S string }
 
 func (s Stringer) String() string { return s.S }
+
+// LoggingStringer is a Stringer that logs a record through another logger (to nowhere) while it is being formatted -
+// what a value with a lazy, instrumented String() does. The record that carries it must not notice.
+type LoggingStringer struct{ S string }
+
+var (
+	nestOnce   sync.Once
+	nestLogger *slog.Entry
+	nestCalls  int
+)
+
+// NestedLog emits one record through a private logger whose destination discards it; the format rotates.
+func NestedLog(why string) {
+	nestOnce.Do(func() {
+		nestLogger = slog.New("nested-in-value").Root()
+		nestLogger.SetWriter(io.Discard).SetErrorWriter(io.Discard).SetLevel(slog.AlwaysLevel)
+	})
+	nestCalls++
+	switch nestCalls % 3 {
+	case 0:
+		nestLogger.SetJSONMode(true)
+	case 1:
+		nestLogger.SetColorMode(true)
+	default:
+		nestLogger.SetColorMode(false)
+	}
+	nestLogger.Info("record issued while another record is being formatted\nsecond line", "why", why, "n", nestCalls, slog.Group("g", "x", 1, "y", "z"))
+}
+
+// NestedRecords reports how many records were issued from inside values so far.
+func NestedRecords() int { return nestCalls }
+
+func (s LoggingStringer) String() string { NestedLog("String()"); return s.S }
+
+// LoggingError is an error whose Error() logs (see LoggingStringer).
+type LoggingError struct{ S string }
+
+func (e LoggingError) Error() string { NestedLog("Error()"); return e.S }
 
 type ToStr struct{ S string }
 
@@ -92,6 +132,9 @@ func (r *R) F64() float64 {
 }
 
 var Zones = []*time.Location{time.UTC, time.FixedZone("", 0), time.FixedZone("X", 5*3600+1800), time.FixedZone("Y", -(9*3600 + 45*60)), time.FixedZone("odd", 3600+17*60), time.FixedZone("neg", -1*60)}
+
+// NestingValues switches on Stringer / error values that log through another logger while they are being formatted.
+var NestingValues = true
 
 // ExtremeTimes switches on instants outside years 0..9999 (which RFC 3339 cannot carry).
 var ExtremeTimes = false
@@ -192,6 +235,9 @@ func (r *R) Scalar(kind string, o Options) V {
 	case "err":
 		v.Text = r.Str(o.Str)
 		v.Go = errors.New(v.Text)
+		if NestingValues && r.P(20) {
+			v.Go = LoggingError{v.Text}
+		}
 	case "errv3":
 		v.Text = r.Str(o.Str)
 		v.Go = errorsv3.New(safeFmt(v.Text))
@@ -199,6 +245,9 @@ func (r *R) Scalar(kind string, o Options) V {
 	case "stringer":
 		v.Text = r.Str(o.Str)
 		v.Go = Stringer{v.Text}
+		if NestingValues && r.P(35) {
+			v.Go = LoggingStringer{v.Text}
+		}
 	case "tostring":
 		v.Text = r.Str(o.Str)
 		v.Go = ToStr{v.Text}
